@@ -18,8 +18,8 @@ import (
 	adminapi "github.com/onosproject/onos-api/go/onos/config/admin"
 	configapi "github.com/onosproject/onos-api/go/onos/config/v2"
 	topoapi "github.com/onosproject/onos-api/go/onos/topo"
-	proposalctl "github.com/onosproject/onos-config/pkg/controller/v2/proposal"
 	controllerutils "github.com/onosproject/onos-config/pkg/controller/utils"
+	proposalctl "github.com/onosproject/onos-config/pkg/controller/v2/proposal"
 	adminsrv "github.com/onosproject/onos-config/pkg/northbound/admin"
 	gnmisrv "github.com/onosproject/onos-config/pkg/northbound/gnmi/v2"
 	"github.com/onosproject/onos-config/pkg/pluginregistry"
@@ -114,8 +114,10 @@ func (fakePlugin) GetInfo() *pluginregistry.ModelPluginInfo {
 	return &pluginregistry.ModelPluginInfo{Info: adminapi.ModelInfo{Name: "devicesim", Version: "1.0.0"},
 		ReadWritePaths: path.ReadWritePathMap{"/foo": adminapi.ReadWritePath{ValueType: configapi.ValueType_STRING}}}
 }
-func (fakePlugin) Capabilities(ctx context.Context) *gnmi.CapabilityResponse { return &gnmi.CapabilityResponse{} }
-func (fakePlugin) Validate(ctx context.Context, jsonData []byte) error        { return nil }
+func (fakePlugin) Capabilities(ctx context.Context) *gnmi.CapabilityResponse {
+	return &gnmi.CapabilityResponse{}
+}
+func (fakePlugin) Validate(ctx context.Context, jsonData []byte) error { return nil }
 func (fakePlugin) GetPathValues(ctx context.Context, pathPrefix string, jsonData []byte) ([]*configapi.PathValue, error) {
 	return nil, nil
 }
@@ -166,7 +168,7 @@ func (c *fakeConn) SetWithString(ctx context.Context, request string) (*gnmi.Set
 	return nil, nil
 }
 func (c *fakeConn) Subscribe(ctx context.Context, q baseClient.Query) error { return nil }
-func (c *fakeConn) Poll() error                                              { return nil }
+func (c *fakeConn) Poll() error                                             { return nil }
 
 type fakeConns struct{ conn *fakeConn }
 
